@@ -54,7 +54,10 @@ func init() {
 			"canonical alternatives: running thread first, then ascending ids; a schedule is identified by its choice vector. " +
 			"evaluations = distinct schedules executed on the real implementation; non-trivial = schedules with at least one preemption " +
 			"(a thread was switched out in the middle of its program); distinct outcomes = distinct (case, observation logs): one per case when the property holds. " +
-			"sharing: reflective heap walk of the runtimes of a case at rest and with both threads stopped mid-program.",
+			"Families <scenario> enumerate the quick bound (1 preemption; 2 for copy-only) in both tiers; the thorough-only families <scenario>+ extend the cases to bound 2 " +
+			"(3 for bodies of at most 60 scheduling points and for copy-only) and count only the schedules beyond the quick bound; work is sharded by the subtree below the first preemption. " +
+			"sharing: reflective heap walk of the runtimes of a case at rest and with all threads stopped mid-program. " +
+			"RACE (supervisor side): the same cases free-running under the Go race detector.",
 		Families: fams,
 		Assumptions: []string{
 			"the cooperative scheduler decides result-independence and Script/Program immutability at the granularity of evaluation steps; interleavings INSIDE one built-in call are not enumerated",
@@ -394,7 +397,11 @@ func runScenario(r *engine.Run, scenario string, deep bool) {
 				parts = append(parts, fmt.Sprintf("%d cases at <=%d preemptions", bounds[b], b))
 			}
 		}
-		r.Bound("preemption_bound", strings.Join(parts, ", "))
+		val := strings.Join(parts, ", ")
+		if deep {
+			val += " (completed by every worker unless caps_hit lists this family)"
+		}
+		r.Bound("preemption_bound", val)
 		r.Bound("cases", fmt.Sprint(len(pl)))
 	}
 }
